@@ -51,26 +51,42 @@ Definition lookup_top (k : string) : option top_fn := assoc k top_table.
 Definition lookup_expr (k : string) : option expr_fn := assoc k expr_table.
 
 (* ------------------------------------------------------------------ *)
-(* match.go:767 matchUnwind(doc, path, merge, yieldMerge, op) *)
-
-Definition unwind (d : doc) (path : string) (merge yield_merge : bool)
-           (op : value -> res bool) : res bool :=
-  let '(value, multi) := All d path true merge in
-  let direct := if negb multi || yield_merge then op value else Ok false in
-  match value with
-  | VArr arr => first_ok op arr direct
-  | _ => direct
+(* match.go matchLeaf(value, op): the elements of an array first, then the
+   value itself *)
+Definition leaf_match (op : value -> res bool) (v : value) : res bool :=
+  match v with
+  | VArr arr => first_ok op arr (op v)
+  | _ => op v
   end.
 
+(* match.go matchUnwind(doc, path, yieldAll, op): without fan-out the value at
+   the path is matched as a leaf; under fan-out (multi) every value found is,
+   and with yieldAll the list of the values found as one array as well *)
+Definition unwind (d : doc) (path : string) (yield_all : bool)
+           (op : value -> res bool) : res bool :=
+  let '(value, multi) := All d path true false in
+  if multi then
+    let rest := if yield_all then op value else Ok false in
+    match value with
+    | VArr leaves => first_ok (leaf_match op) leaves rest
+    | _ => rest
+    end
+  else leaf_match op value.
+
+Definition leaf_candidates (v : value) : list value :=
+  ((match v with VArr arr => arr | _ => [] end) ++ [v])%list.
+
 (* the values matchUnwind offers to op, in order *)
-Definition unwind_candidates (d : doc) (path : string) (merge yield_merge : bool) : list value :=
-  let '(value, multi) := All d path true merge in
-  (match value with VArr arr => arr | _ => [] end)
-    ++ (if negb multi || yield_merge then [value] else []).
+Definition unwind_candidates (d : doc) (path : string) (yield_all : bool) : list value :=
+  let '(value, multi) := All d path true false in
+  if multi then
+    ((match value with VArr leaves => flat_map leaf_candidates leaves | _ => [] end)
+      ++ (if yield_all then [value] else []))%list
+  else leaf_candidates value.
 
 (* the candidates of the comparison family, $in, $type, $mod, $bits* *)
 Definition candidates (d : doc) (path : string) : list value :=
-  unwind_candidates d path true false.
+  unwind_candidates d path false.
 
 (* ------------------------------------------------------------------ *)
 (* match.go:143 matchComp: type bracketing + bsonkit.Compare *)
@@ -89,7 +105,7 @@ Definition comp_test (op : string) (v field : value) : res bool :=
   match cmp_holds op field v with Some b => Ok b | None => Err end.
 
 Definition match_comp (d : doc) (op path : string) (v : value) : res bool :=
-  unwind d path true false (comp_test op v).
+  unwind d path false (comp_test op v).
 
 (* match.go:204 matchIn: the array check happens inside the callback *)
 Definition in_test (v field : value) : res bool :=
@@ -99,7 +115,7 @@ Definition in_test (v field : value) : res bool :=
   end.
 
 Definition match_in (d : doc) (path : string) (v : value) : res bool :=
-  unwind d path true false (in_test v).
+  unwind d path false (in_test v).
 
 (* match.go:237 matchExists *)
 Definition truthy (v : value) : bool :=
@@ -112,7 +128,7 @@ Definition truthy (v : value) : bool :=
   end.
 
 Definition match_exists (d : doc) (path : string) (v : value) : res bool :=
-  let '(value, multi) := All d path true true in
+  let '(value, multi) := All d path true false in
   let found :=
     if multi then
       match value with
@@ -155,7 +171,7 @@ Definition match_type (d : doc) (path : string) (v : value) : res bool :=
   | _ =>
       match mapM resolve_type operands with
       | Ok rs =>
-          unwind d path true false
+          unwind d path false
                  (type_test (existsb fst rs)
                             (map snd (filter (fun r => negb (fst r)) rs)))
       | Err => Err | Panic => Panic | OutOfFuel => OutOfFuel | Unmodelled => Unmodelled
@@ -180,7 +196,7 @@ Definition all_test (v field : value) : res bool :=
   end.
 
 Definition match_all (d : doc) (path : string) (v : value) : res bool :=
-  unwind d path false true (all_test v).
+  unwind d path true (all_test v).
 
 (* match.go:416 matchSize *)
 Definition size_arg (v : value) : res Z :=
@@ -200,7 +216,7 @@ Definition has_len (size : Z) (v : value) : bool :=
 Definition match_size (d : doc) (path : string) (v : value) : res bool :=
   match size_arg v with
   | Ok size =>
-      let '(value, multi) := All d path false false in
+      let '(value, multi) := All d path true false in
       if multi then
         match value with
         | VArr arr => Ok (existsb (has_len size) arr)
@@ -243,7 +259,7 @@ Definition match_mod (d : doc) (path : string) (v : value) : res bool :=
           match mod_operand b with
           | Ok remainder =>
               if (divisor =? 0)%Z then Err
-              else unwind d path true false (mod_test divisor remainder)
+              else unwind d path false (mod_test divisor remainder)
           | Err => Err | Panic => Panic | OutOfFuel => OutOfFuel | Unmodelled => Unmodelled
           end
       | Err => Err | Panic => Panic | OutOfFuel => OutOfFuel | Unmodelled => Unmodelled
@@ -333,7 +349,7 @@ Definition bits_test (op : string) (positions : list Z) (field : value) : res bo
 (* match.go:591 matchBits *)
 Definition match_bits (d : doc) (op path : string) (v : value) : res bool :=
   match parse_bit_mask v with
-  | Ok positions => unwind d path true false (bits_test op positions)
+  | Ok positions => unwind d path false (bits_test op positions)
   | Err => Err | Panic => Panic | OutOfFuel => OutOfFuel | Unmodelled => Unmodelled
   end.
 
